@@ -11,17 +11,16 @@
 (*   I-level  IReplicaRound / IMasterRound: the steps of the code, in the code's order;          *)
 (*   P-level  PReplicaRound / PMasterRound: the rules of properties C28 and C27 -- the set of     *)
 (*            statuses the node may have after the round, and which rule decided.               *)
-(* TLC checks  I-level status \in P-level allowed set  on every transition, except in the two     *)
-(* corners listed in KnownCorner, where the code and the property text disagree (these are the    *)
-(* candidates that the conformance replay then confirms on the real code).                       *)
+(* TLC checks  I-level status \in P-level allowed set  on every transition.  (Until the fix       *)
+(* commits d0d67dd / d1c5174 the master-down branch of the no-recovery and hard rounds marked a    *)
+(* down replica up without a passed probe / inside the cool-down; the I-level below is the         *)
+(* repaired code.)                                                                               *)
 EXTENDS Fuse
 
 CONSTANTS DownAfter,   \* seconds without a passed probe after which a node is marked down (> 0)
           SBM,         \* seconds_behind_master limit; 0 = replication state is not checked
           HealthSQL,   \* BOOLEAN: a health-check statement is configured
-          HasMaster,   \* BOOLEAN: the slice has a master node (FALSE: GetMasterStatus fails)
-          Scope        \* "C27" | "C28": which property's rules are applied strictly where both speak about the
-                       \* same round (a replica that is down while the master is down, see PReplicaRound)
+          HasMaster    \* BOOLEAN: the slice has a master node (FALSE: GetMasterStatus fails)
 
 VARIABLES m,     \* master: [st, lc]
           lc     \* replica pool's lastChecked
@@ -95,7 +94,12 @@ IReplicaRound(nn, l0, mst, t, pr, sy) ==
         n1 == IF ok THEN nn ELSE IProbeFailed(nn)
     IN IF t - l1 >= DownAfter THEN [n |-> [n1 EXCEPT !.st = Down], lc |-> l1]
        ELSE IF mst = Down
-            THEN [n |-> IF Policy = "gradual" THEN n1 ELSE [n1 EXCEPT !.st = Up], lc |-> l1]
+            \* no-recovery: conn != nil && down => up; hard: conn != nil && down && AllowRecovery() => up;
+            \* gradual: returns without touching the status
+            THEN [n |-> IF Policy = "gradual" \/ ~ok \/ n1.st = Up THEN n1
+                        ELSE IF Policy = "hard" /\ ~(t >= n1.lastFuse + Cool) THEN n1
+                        ELSE [n1 EXCEPT !.st = Up],
+                  lc |-> l1]
        ELSE IF SBM # 0 /\ ok /\ SyncDead(sy) THEN [n |-> [n1 EXCEPT !.st = Down], lc |-> l1]
        ELSE IF ok THEN [n |-> IRecover(n1, t), lc |-> l1]
        ELSE [n |-> n1, lc |-> l1]
@@ -122,14 +126,11 @@ PReplicaRound(st, gg, l0, mst, t, pr, sy) ==
        THEN [al |-> {Down}, g |-> g1, why |-> "no-probe-passed-for-down-after"]
        ELSE IF mst = Down
             THEN IF st = Up THEN [al |-> {Up}, g |-> g1, why |-> "master-down/no-rule-applies"]
-                 \* C28: no successful probe in this round => the replica stays down (C27 has no opinion when
-                 \* the recovery condition holds); C27: recovery condition not met => stays down (C28 defers
-                 \* to C27 for fused replicas).  Each check judges its own rule first and is permissive about
-                 \* the other's, so that a deviation is reported under the property that forbids it.
-                 ELSE IF Scope = "C28" /\ ~ok THEN [al |-> {Down}, g |-> g1, why |-> "master-down/probe-failed"]
+                 \* C28: no passed probe in this round => the replica stays down;
+                 \* C27: recovery condition not met => it stays down
+                 ELSE IF ~ok THEN [al |-> {Down}, g |-> g1, why |-> "master-down/probe-failed"]
                  ELSE IF ~PMayRecover(g1, t)
                       THEN [al |-> {Down}, g |-> g1, why |-> "master-down/" \o RecoverWhy(g1, t)]
-                 ELSE IF ~ok THEN [al |-> {Down, Up}, g |-> g1, why |-> "master-down/probe-failed"]
                  ELSE IF Policy = "gradual"
                       \* the replication check cannot be made while the master is down: the text does
                       \* not say whether such a round counts as a successful probe; both are accepted
@@ -180,22 +181,8 @@ HSpec == HInit /\ [][HNext]_hvars
 ----------------------------------------------------------------------------------
 (* Properties *)
 
-(* The two corners in which the code's round (I-level) leaves the set the property text allows:   *)
-(* with the master down, checkWithNoRecovery / checkWithHardRecovery mark a down replica up         *)
-(*  (a) although this round's probe failed               (C28: "marked up again after a successful probe") *)
-(*  (b) although the hard cool-down has not elapsed      (C27).                                     *)
-CornerA == /\ last.ev = "rround" /\ Policy # "gradual"
-           /\ last.pre = Down /\ last.mst = Down /\ last.i = Up
-           /\ ~Passes(last.pr)
-CornerB == /\ last.ev = "rround" /\ Policy = "hard"
-           /\ last.pre = Down /\ last.mst = Down /\ last.i = Up
-           /\ ~last.may
-KnownCorner == CornerA \/ CornerB
-
-NoCorner == FALSE     \* substitute for KnownCorner to make TLC exhibit the corners as counterexamples
-
 RoundIsAllowed ==
-    [][last'.ev \in {"rround", "mround"} => (last'.i \in last'.al \/ KnownCorner')]_hvars
+    [][last'.ev \in {"rround", "mround"} => last'.i \in last'.al]_hvars
 
 (* connection errors inside the composed system: the breaker decision is the property-level one *)
 ErrIsP == [][last'.ev = "err" => last'.i = last'.p]_hvars
@@ -219,17 +206,17 @@ DownAfterRule ==
        /\ IsM => /\ m'.lc = (IF Passes(last'.pr) THEN now ELSE m.lc)
                  /\ (now - m'.lc >= DownAfter => m'.st = Down)]_hvars
 
-(* C28: a node only comes up in a round whose probe passed -- except in corner (a) *)
+(* C28: a node only comes up in a round whose probe passed *)
 UpOnlyAfterProbe ==
-    [][/\ (IsR /\ n.st = Down /\ n'.st = Up) => (Passes(last'.pr) \/ CornerA')
+    [][/\ (IsR /\ n.st = Down /\ n'.st = Up) => Passes(last'.pr)
        /\ (IsM /\ m.st = Down /\ m'.st = Up) => Passes(last'.pr)
        /\ (n.st = Down /\ n'.st = Up) => IsR
        /\ (m.st = Down /\ m'.st = Up) => IsM]_hvars
 
-(* C27 inside the rounds: no recovery before the policy allows it -- except in corner (b) *)
+(* C27 inside the rounds: no recovery before the policy allows it *)
 NoEarlyRecoveryH ==
     [][(IsR /\ n.st = Down /\ n'.st = Up) =>
-          (PMayRecover(IF Passes(last'.pr) THEN g ELSE PProbeFailed(n.st, g), now) \/ CornerB')]_hvars
+          PMayRecover(IF Passes(last'.pr) THEN g ELSE PProbeFailed(n.st, g), now)]_hvars
 
 (* C27 / C28: a passing round with a healthy replication state and an up master brings a down      *)
 (* replica up as soon as the policy allows it                                                     *)
